@@ -402,7 +402,23 @@ func (w *World) buildOp(op *Op) *BuiltOp {
 				limit = reg.Limit.Uint64()
 			}
 		}
-		switch op.Rule % 7 {
+		rule := op.Rule % 8
+		if rule == 7 || (rule == 0 && m.P.FeePur >= 1<<60 && op.N%2 == 0) {
+			// the smallest slot count whose total per-slot fee reaches 2^64 (64-bit arithmetic would wrap), if purchasable
+			q := new(big.Int).Div(pow2(64), new(big.Int).SetUint64(m.P.FeePur))
+			if new(big.Int).Mul(q, new(big.Int).SetUint64(m.P.FeePur)).Cmp(pow2(64)) < 0 {
+				q.Add(q, big.NewInt(1))
+			}
+			if q.IsUint64() && q.Uint64() >= 1 && q.Uint64() <= room {
+				n = q.Uint64()
+				rule = -1
+				w.Class("op.purchase-fee-reaches-2^64")
+			} else {
+				rule = 0
+			}
+		}
+		switch rule {
+		case -1:
 		case 0:
 			n = 1 + op.N%3
 		case 1:
